@@ -372,6 +372,36 @@ func init() {
 			allocScript(rep, m, r)
 			rep.count("alloc:scripts", 1)
 		}
+		// ... and how the free lists are stored: what is written must be what a reopen reads (region codec incl. the
+		// counts around 255, free-list operations)
+		freelistCases(rep, m, r, k)
+		codecCases(rep, m, r, 4*k)
+		// directed: free runs of 253..257 adjacent pages (the boundary of the compact region encoding), alone and followed
+		// by further free regions, then reopen: the conservation identity must hold with the same numbers as before;
+		// and new files whose initial meta area is one region of 255 free pages
+		for run := 253; run <= 257; run++ {
+			for v := 0; v < 2; v++ {
+				cfg := engine.Config{PageSize: 1024, MaxSize: 1024 * 1024, InitMetaArea: 4}
+				ops := []engine.Op{{Kind: "begin"}, {Kind: "alloc", N: 300}, {Kind: "commit"}, {Kind: "begin"}}
+				for i := 0; i < run; i++ {
+					ops = append(ops, engine.Op{Kind: "free", P: 10}) // always the 10th remaining page: a contiguous run
+				}
+				if v == 1 {
+					ops = append(ops, engine.Op{Kind: "free", P: 2}, engine.Op{Kind: "free", P: 4})
+				}
+				ops = append(ops, engine.Op{Kind: "commit"}, engine.Op{Kind: "reopen"},
+					engine.Op{Kind: "begin"}, engine.Op{Kind: "alloc", N: 20}, engine.Op{Kind: "commit"}, engine.Op{Kind: "reopen"})
+				c11History(rep, cfg, ops, int64(5000+run*2+v))
+				rep.count("scenario:free-run-at-the-region-encoding-boundary", 1)
+			}
+		}
+		for _, meta := range []uint32{255, 256, 257} {
+			cfg := engine.Config{PageSize: 1024, MaxSize: 1024 * 1024, InitMetaArea: meta}
+			ops := []engine.Op{{Kind: "reopen"}, {Kind: "begin"}, {Kind: "alloc", N: 5}, {Kind: "setfull", P: 0, Seed: 3}, {Kind: "commit"},
+				{Kind: "begin", WALLimit: 1000}, {Kind: "setfull", P: 0, Seed: 4}, {Kind: "commit"}, {Kind: "reopen"}}
+			c11History(rep, cfg, ops, int64(5100+int(meta)))
+			rep.count("scenario:initial-meta-area-at-the-region-encoding-boundary", 1)
+		}
 		rep.ModelCalls = m.N
 		return rep.finish(f)
 	})
